@@ -5,6 +5,7 @@ import (
 	"errors"
 	"fmt"
 	"sort"
+	"strings"
 	"sync/atomic"
 	"time"
 
@@ -40,6 +41,8 @@ type c06Shared struct {
 	pinnedReq, exportPinned, doubleClose, latePins, bracketPrunes int64
 	// commitSeq is odd while the writer is inside SaveVersion (commit in flight)
 	commitSeq int64
+	// saveLo is the length of the physical write log when the last SaveVersion was called
+	saveLo int64
 	// finished is a real (race-detector-visible) release/acquire pair: the
 	// readers' last action and the writer's last check before it closes the
 	// tree, as an application that closes its store after its queries ended.
@@ -301,6 +304,7 @@ func execC06x(p *drv.Plan, lg *c06Log) *Out {
 	}
 	tree = w.Tree
 	w.Sim.Hook = func(kind string) { sched.Yield("simdb." + kind) }
+	w.Sim.Who = sched.CurName
 	if lg != nil {
 		lg.M, lg.T, lg.sim, lg.universe = M, T, w.Sim, universe
 	}
@@ -481,6 +485,7 @@ func execC06x(p *drv.Plan, lg *c06Log) *Out {
 							}
 						}
 					}
+					sh.store(&sh.saveLo, int64(w.Sim.LogLen()))
 					sh.add(&sh.commitSeq, 1)
 					slo := logLen()
 					h, v, err := tree.SaveVersion()
@@ -557,7 +562,7 @@ func execC06x(p *drv.Plan, lg *c06Log) *Out {
 				sh.add(&sh.leases[v], 1)
 				s := s
 				guard(1+rid, s, fmt.Sprintf("reader/v=%s", verKind(v, floor, latest)), func() *drv.Violation {
-					return c06Read(tree, sched, sh, s, v, vers[v], probeKeys, latest, p.Config.Fast, out)
+					return c06Read(tree, sched, sh, w.Sim, s, v, vers[v], probeKeys, latest, p.Config.Fast, out)
 				})
 				sh.add(&sh.leases[v], -1)
 			}
@@ -628,7 +633,7 @@ func verKind(v, floor, latest int64) string {
 
 // c06Read executes one reader bundle on version v and compares every result
 // with the precomputed contents of that version.
-func c06Read(tree *iavl.MutableTree, sched *sim.Sched, sh *c06Shared, s drv.Step, v int64, exp *c06Version, keys [][]byte, latestAtStart int64, fastOn bool, out *Out) *drv.Violation {
+func c06Read(tree *iavl.MutableTree, sched *sim.Sched, sh *c06Shared, disk *sim.SimDB, s drv.Step, v int64, exp *c06Version, keys [][]byte, latestAtStart int64, fastOn bool, out *Out) *drv.Violation {
 	cls := "read"
 	ctx := "older"
 	if v == latestAtStart {
@@ -646,6 +651,30 @@ func c06Read(tree *iavl.MutableTree, sched *sim.Sched, sh *c06Shared, s drv.Step
 		flight := "/no-commit"
 		if seq1 := sh.load(&sh.commitSeq); seq0%2 == 1 || seq1 != seq0 {
 			flight = "/commit-in-flight"
+			// Who wrote the index entries of the commit in flight out, and how?
+			// On the unchanged tree only the writer does (its own threshold
+			// flushes and its Commit), or another task whose own Set/Delete
+			// pushed the shared batch over the flush threshold. Anything else
+			// (another task writing the writer's pending batch out on its own
+			// account) is a different defect with the same symptom and gets a
+			// class of its own, so that the listed findings do not cover it.
+			if lo := int(sh.load(&sh.saveLo)); disk != nil && lo <= disk.LogLen() {
+				for _, rec := range disk.Log(lo, disk.LogLen()) {
+					if rec.Task == "" || rec.Task == "writer" {
+						continue
+					}
+					index := false
+					for _, op := range rec.Ops {
+						if len(op.K) > 0 && (op.K[0] == 'f' || op.K[0] == 'm') {
+							index = true
+						}
+					}
+					if index && !strings.Contains(rec.Site, "BatchWithFlusher.Set") && !strings.Contains(rec.Site, "BatchWithFlusher.Delete") {
+						flight = "/commit-in-flight+index-written-out-by-" + rec.Task
+						break
+					}
+				}
+			}
 		}
 		return &drv.Violation{Prop: "C06", Oracle: oracle, Symptom: symptom, Class: what + "@" + ctx + flight, Detail: fmt.Sprintf("reader of version %d (latest at start %d): %s", v, latestAtStart, detail)}
 	}
